@@ -22,7 +22,7 @@ m = {
         "enable": "RUSTFLAGS='--cfg nlnetlabs_roto_verif' (set by lib/common.py for every cargo / cargo kani invocation)",
         "baseline_off_cmd": "cd /repo && cargo test --workspace --no-fail-fast --offline",
         "source_commits": HOOK_COMMITS,
-        "add_only": True,
+        "add_only": False,   # H7 replaces `use std::sync::{Arc, Mutex}` in list.rs by a cfg-switched pair of imports (DESIGN 10.2); every other hook only adds
     },
     "engines": ENGINES,
     "checks": [CLAIMS[k] for k in sorted(CLAIMS)],
